@@ -62,6 +62,7 @@ fn ilv_oracle() -> Oracle {
                     let state = match run.obs_end.entry(*pk) {
                         None => "absent",
                         Some(e) if e.4 => "soft-deleted-with-no-delete-pending",
+                        Some(e) if e.3.map(|x| c.now_ms_ret <= x).unwrap_or(true) => "unexpired",
                         Some(_) => "expired-unswept",
                     };
                     out.push(Finding::new("KeyAlreadyExists-for-unreadable-key", format!("put:KeyAlreadyExists-for-{}-key", state), format!("{} was rejected with KeyAlreadyExists although the key reads as absent and no command is in flight (state: {})", c.short(), state)));
@@ -170,6 +171,9 @@ fn oracle() -> SeqOracle {
             let state = match before.entry(k) {
                 None => "absent",
                 Some(e) if e.4 => "soft-deleted",
+                // the recorded finding needs a time-to-live that has elapsed (clock strictly past the expiry): an entry
+                // that reads absent no later than its expiry instant is a different defect
+                Some(e) if e.3.map(|x| before.now_ms <= x).unwrap_or(true) => "unexpired",
                 Some(_) => {
                     if passed_over_by_its_sweep(run, i, k) {
                         "expired-and-passed-over-by-its-sweep"
